@@ -34,6 +34,10 @@
 (*   frozen    (root, field, op)   -> refused, record unchanged            *)
 (*   hash      (root)              -> an integer, equal for equal records  *)
 (*   roundtrip (root)              -> FromDict(AsDict(r)) = r, field-wise  *)
+(*   dictseq   (every class)       -> one instance: as_dict; edit that     *)
+(*                                    copy; as_dict again still yields the *)
+(*                                    declared values; attributes too;     *)
+(*                                    FromDict of it equals the record     *)
 (* and emits each with PrintT(<<"CASE", json>>) for the replayer.          *)
 (* Lemmas checked as invariants on every case:                             *)
 (*   ChainReachesRoot  every class reaches the root through its parents    *)
@@ -43,6 +47,8 @@
 (*   RoundTripLemma    FromDict(AsDict(Rec(c))) = Rec(c) for the case's c  *)
 (*   DictDomain        the dictionary form has exactly the record's fields *)
 (*   FrozenLemma       a refused mutation leaves the record unchanged      *)
+(*   NoAliasLemma      editing a handed-out dictionary form changes neither*)
+(*                     the record nor any later dictionary form            *)
 (***************************************************************************)
 EXTENDS Integers, Sequences, FiniteSets, TLC, Json, IOUtils
 
@@ -120,7 +126,25 @@ RoundTripCases == {[kind |-> "roundtrip", cls |-> Root,
                     expected |-> [f \in Fields |-> FromDict(AsDict(Rec(Root)))[Index(f)]],
                     equal |-> FromDict(AsDict(Rec(Root))) = Rec(Root)]}
 
+\* The dictionary form is a COPY: a run of operations on one record instance, with the dictionary
+\* forms it handed out kept in a heap.  Editing a copy changes that copy only.
+Edited == "<edited>"
+Step(st, op) ==
+  CASE op = "as_dict" -> [st EXCEPT !.dicts = Append(@, AsDict(st.rec))]
+    [] op = "edit_first_copy" -> [st EXCEPT !.dicts[1] = [f \in Fields |-> Edited]]
+    [] op = "from_dict_of_last" -> [st EXCEPT !.rebuilt = FromDict(st.dicts[Len(st.dicts)])]
+RECURSIVE RunOps(_, _)
+RunOps(st, ops) == IF ops = <<>> THEN st ELSE RunOps(Step(st, Head(ops)), Tail(ops))
+DictOps == <<"as_dict", "edit_first_copy", "as_dict", "from_dict_of_last">>
+DictRun(c) == RunOps([rec |-> Rec(c), dicts |-> <<>>, rebuilt |-> <<>>], DictOps)
+DictSeqCases == {[kind |-> "dictseq", cls |-> c, ops |-> DictOps,
+                  second |-> DictRun(c).dicts[2],                         \* what the 2nd as_dict() yields
+                  attributes |-> [f \in Fields |-> DictRun(c).rec[Index(f)]], \* attribute access afterwards
+                  origin |-> [f \in Fields |-> Origin(c, f)],
+                  rebuilt_equal |-> DictRun(c).rebuilt = Rec(c)] : c \in Classes}
+
 PInit == \/ case \in ValueCases
+         \/ case \in DictSeqCases
          \/ case \in FrozenCases
          \/ case \in HashCases
          \/ case \in RoundTripCases
@@ -136,6 +160,11 @@ InheritOtherwise == (case.kind = "value" /\ ~Declares(case.cls, case.field) /\ c
 RootIsTotal == (case.kind = "value" /\ case.cls = Root) => (case.own /\ ~case.differs)
 RoundTripLemma == FromDict(AsDict(Rec(case.cls))) = Rec(case.cls)
 DictDomain == DOMAIN AsDict(Rec(case.cls)) = Fields
+NoAliasLemma == case.kind = "dictseq"
+                  => /\ case.second = AsDict(Rec(case.cls))            \* still the declared values
+                     /\ DictRun(case.cls).dicts[1] # DictRun(case.cls).dicts[2] \* the edit stayed in the copy
+                     /\ \A f \in Fields : case.attributes[f] = Resolve(case.cls, f)
+                     /\ case.rebuilt_equal                              \* FromDict(AsDict(p)) = p afterwards
 FrozenLemma == case.kind = "frozen"
                  => /\ case.outcome = "FrozenInstanceError"
                     /\ case.expected = Resolve(Root, case.field)
